@@ -9,10 +9,11 @@
         - prepare_rings   : the whole of Kekule.__prepare_rings (aromatic skeleton, SSSR based repair of mis-drawn rings,
                             the biphenyl fix that sets inter-ring aromatic bonds to single, the quinone checks and the
                             atom loop).  The SSSR is an INPUT of the model (ring perception is C06's business);
-        - kekule_driver   : Kekule.kekule after __fix_rings: __prepare_rings, the search (an oracle argument: the
-                            backtracking search _kekule_component is a heuristic and is NOT modelled), writing the
-                            bond orders of the found form, calc_implicit on the touched atoms (an oracle argument,
-                            C04 models it).
+        - kekule_driver   : Kekule.kekule after __fix_rings: __prepare_rings, the search (an ARGUMENT of the driver, so
+                            that its theorems hold for any search), writing the bond orders of the found form,
+                            calc_implicit on the touched atoms (an argument, C04 models it);
+        - kekule_component: the backtracking search _kekule_component itself (section 8), statement by statement,
+                            tied by correspondence only (no theorem is stated about the heuristic).
    (S) specification-level boolean checkers that are run on EVERY output of the real code:
         - kekule_rel g g' : g' is an acceptable Kekule form of g;
         - thiele_rel g g' : g' is an acceptable aromatic form of g.
@@ -424,4 +425,198 @@ Definition repair (g : mol) (sssr : list (list Z)) : mol :=
   match prepare_rings g sssr with
   | Ok p => apply_form g (skeleton_non4 g (r_rings p))
   | Err _ => g
+  end.
+
+(* ------------------------------------------------------------------------------------------------
+   8. _kekule_component: the backtracking search over one aromatic component, as the Python generator runs it.
+      rings = the component (dict atom -> list of skeleton neighbours, insertion order), double_bonded / pyrroles = the
+      two sets restricted to the component; db_start = next(iter(double_bonded)) (set iteration order is an INPUT).
+      The stack is kept with its top (Python stack[-1]) at the head; the inner lists are in Python order.
+   ------------------------------------------------------------------------------------------------ *)
+Definition kitem := (Z * Z * Z * option Z)%type.        (* (atom, previous atom, bond order, path depth for cutting) *)
+Definition kentry := (Z * Z * Z)%type.                  (* (atom, previous atom, bond order) *)
+
+Definition kitem_eqb (a b : kitem) : bool :=
+  let '(a1, a2, a3, a4) := a in let '(b1, b2, b3, b4) := b in
+  (a1 =? b1) && (a2 =? b2) && (a3 =? b3) && option_eqb Z.eqb a4 b4.
+
+Fixpoint remove_kitem (x : kitem) (l : list kitem) : option (list kitem) :=       (* list.remove; None = ValueError *)
+  match l with
+  | [] => None
+  | y :: r => if kitem_eqb x y then Some r else option_map (cons y) (remove_kitem x r)
+  end.
+
+Definition pop_last {A : Type} (l : list A) : option (A * list A) :=                (* list.pop(); None = IndexError *)
+  match rev l with [] => None | x :: r => Some (x, rev r) end.
+
+Definition nonempty {A : Type} (l : list A) : bool := match l with [] => false | _ => true end.
+Definition in_path (x : Z) (path : list kentry) : bool := existsb (fun e => fst (fst e) =? x) path.   (* hashed_path *)
+(* g[n] of the pyridine test: sum of the orders of the path bonds at n *)
+Definition gsum (n : Z) (path : list kentry) : Z :=
+  fold_right (fun e s => let '(a, p, o) := e in (if a =? n then o else 0) + (if p =? n then o else 0) + s) 0 path.
+
+(* path = path[:stack[-1][-1][-1]] after `del stack[-1]`, only `if stack` *)
+Definition cut_path (stack : list (list kitem)) (path : list kentry) : pyres (list kentry) :=
+  match stack with
+  | [] => Ok path
+  | top :: _ => match pop_last top with
+                | None => Err IndexError
+                | Some ((_, _, _, None), _) => Ok path
+                | Some ((_, _, _, Some k), _) => Ok (firstn (Z.to_nat k) path)
+                end
+  end.
+
+Record kstate := mkK { k_stack : list (list kitem); k_path : list kentry; k_buffer : list (list kentry); k_bsize : Z; k_never : bool }.
+
+Section Component.
+Variables (rings : adjl) (db pyr : list Z) (start size : Z).
+Definition indb (x : Z) : bool := zmem x db.
+Definition inpyr (x : Z) : bool := zmem x pyr.
+
+Definition backtrack (rest : list (list kitem)) (path : list kentry) : pyres (list (list kitem) * list kentry) :=
+  match cut_path rest path with Err e => Err e | Ok p => Ok (rest, p) end.
+
+Fixpoint do_closures (atom : Z) (cl : list Z) (top : list kitem) (path : list kentry) : pyres (list kitem * list kentry) :=
+  match cl with
+  | [] => Ok (top, path)
+  | c :: r => match remove_kitem (atom, c, 1, None) top with
+              | None => Err ValueError
+              | Some top' => do_closures atom r top' (path ++ [(c, atom, 1)])
+              end
+  end.
+
+(* the part of the loop body after the `if loop:` block *)
+Definition grow (top : list kitem) (rest : list (list kitem)) (path : list kentry) (atom bond : Z) (closures for_stack : list Z)
+  : pyres (list (list kitem) * list kentry) :=
+  let plen := Z.of_nat (List.length path) in
+  let it := fun (n o : Z) (c : option Z) => ((n, atom, o, c) : kitem) in
+  if (bond =? 2) || indb atom then
+    match do_closures atom closures top path with
+    | Err e => Err e
+    | Ok (top1, path1) => Ok ((top1 ++ map (fun n => it n 1 None) for_stack) :: rest, path1)
+    end
+  else match for_stack with
+  | [n1] =>
+      if indb n1 then (if inpyr atom then Ok ((top ++ [it n1 1 None]) :: rest, path) else backtrack rest path)
+      else if inpyr atom then Ok ((top ++ [it n1 2 None]) :: (top ++ [it n1 1 (Some plen)]) :: rest, path)
+      else let top1 := top ++ [it n1 2 None] in
+           match closures with
+           | [] => Ok (top1 :: rest, path)
+           | c :: _ => match remove_kitem (atom, c, 1, None) top1 with
+                       | None => Err ValueError
+                       | Some top2 => Ok (top2 :: rest, path ++ [(c, atom, 1)])
+                       end
+           end
+  | [n1; n2] =>
+      if indb n1 then
+        if indb n2 then (if inpyr atom then Ok ((top ++ [it n1 1 None; it n2 1 None]) :: rest, path) else backtrack rest path)
+        else if inpyr atom then Ok ((top ++ [it n1 1 None; it n2 2 None]) :: (top ++ [it n1 1 None; it n2 1 (Some plen)]) :: rest, path)
+        else Ok ((top ++ [it n1 1 None; it n2 2 None]) :: rest, path)
+      else if indb n2 then
+        if inpyr atom then Ok ((top ++ [it n2 1 None; it n1 2 None]) :: (top ++ [it n1 1 None; it n2 1 (Some plen)]) :: rest, path)
+        else Ok ((top ++ [it n2 1 None; it n1 2 None]) :: rest, path)
+      else if inpyr atom then
+        Ok ((top ++ [it n1 1 None; it n2 2 None]) :: (top ++ [it n2 1 None; it n1 2 (Some plen)])
+            :: (top ++ [it n1 1 None; it n2 1 (Some plen)]) :: rest, path)
+      else Ok ((top ++ [it n2 1 None; it n1 2 None]) :: (top ++ [it n1 1 None; it n2 2 (Some plen)]) :: rest, path)
+  | [] => if nonempty closures && negb (inpyr atom) then backtrack rest path else Ok (top :: rest, path)
+  | _ => Err ValueError                                   (* next_atom1, next_atom2 = for_stack *)
+  end.
+
+(* for next_atom in rings[atom]: ... -> (loop, closures, for_stack) *)
+Definition scan_nbrs (atom prev : Z) (path : list kentry) : Z * list Z * list Z :=
+  fold_left (fun acc nx => let '(lp, cl, fs) := acc in
+                           if nx =? prev then acc
+                           else if nx =? start then (nx, cl, fs)
+                           else if in_path nx path then (lp, cl ++ [nx], fs)
+                           else (lp, cl, fs ++ [nx])) (al_get rings atom) (0, [], []).
+
+(* one iteration of `while stack:`; returns the new state and what the iteration yields *)
+Definition kstep (s : kstate) : pyres (kstate * list (list kentry)) :=
+  match k_stack s with
+  | [] => Ok (s, [])
+  | top0 :: rest =>
+    match pop_last top0 with
+    | None => Err IndexError
+    | Some ((atom, prev, bond, _), top) =>
+      let path := k_path s ++ [(atom, prev, bond)] in
+      if Z.of_nat (List.length path) =? size then
+        let '(ys, buffer, bsize) :=
+          if nonempty pyr && negb (k_bsize s =? 0) then
+            if 2 <=? countb (fun n => gsum n path =? 2) pyr then
+              if Z.of_nat (List.length (k_buffer s)) =? k_bsize s then (k_buffer s ++ [path], [], 0)
+              else ([], k_buffer s ++ [path], k_bsize s)
+            else (path :: k_buffer s, [], 0)
+          else ([path], k_buffer s, k_bsize s) in
+        match cut_path rest path with
+        | Err e => Err e
+        | Ok p => Ok (mkK rest p buffer bsize false, ys)
+        end
+      else if negb (atom =? start) then
+        let '(lp, closures, for_stack) := scan_nbrs atom prev path in
+        let continue_with := fun (top' : list kitem) (bond' : Z) =>
+          match grow top' rest path atom bond' closures for_stack with
+          | Err e => Err e
+          | Ok (st, p) => Ok (mkK st p (k_buffer s) (k_bsize s) (k_never s), [])
+          end in
+        let give_up :=
+          match backtrack rest path with
+          | Err e => Err e
+          | Ok (st, p) => Ok (mkK st p (k_buffer s) (k_bsize s) (k_never s), [])
+          end in
+        if negb (lp =? 0) then
+          if bond =? 2 then (if nonempty db then continue_with ((lp, atom, 1, None) :: top) bond else give_up)
+          else if nonempty db then
+            (if nonempty for_stack || indb atom || inpyr atom then continue_with ((lp, atom, 1, None) :: top) bond else give_up)
+          else continue_with ((lp, atom, 2, None) :: top) 2
+        else continue_with top bond
+      else Ok (mkK (top :: rest) path (k_buffer s) (k_bsize s) (k_never s), [])
+    end
+  end.
+
+(* the generator, cut after maxy yields; result: the yields, "raises InvalidAromaticRing at the end", "ran to the end" *)
+Fixpoint kloop (fuel : nat) (maxy : nat) (s : kstate) (acc : list (list kentry)) : pyres (list (list kentry) * bool * bool) :=
+  if (maxy <=? List.length acc)%nat then Ok (firstn maxy acc, false, false) else
+  match k_stack s with
+  | [] => if k_never s then Ok (acc, true, true) else Ok (firstn maxy (acc ++ k_buffer s), false, true)
+  | _ => match fuel with
+         | O => Err OtherError
+         | S f => match kstep s with
+                  | Err e => Err e
+                  | Ok (s', ys) => kloop f maxy s' (acc ++ ys)
+                  end
+         end
+  end.
+End Component.
+
+Definition find_start (rings : adjl) (pyr : list Z) (strict : bool) : option Z :=
+  match filter (fun nl => (Z.of_nat (List.length (snd nl)) =? 2) && (negb strict || negb (zmem (fst nl) pyr))) rings with
+  | [] => None
+  | nl :: _ => Some (fst nl)
+  end.
+
+Definition kekule_component (rings : adjl) (db : list Z) (db_start : Z) (pyr : list Z) (buffer_size : Z) (maxy fuel : nat)
+  : pyres (list (list kentry) * bool * bool) :=
+  let size := Z.of_nat (fold_right (fun nl s => (List.length (snd nl) + s)%nat) O rings) / 2 in
+  let run := fun (db' : list Z) (start bond : Z) (all_nbrs : bool) =>
+    match al_get rings start with
+    | [] => Err StopIteration
+    | n0 :: more =>
+        let stack := if all_nbrs then rev (map (fun nx => [((nx, start, bond, Some 0) : kitem)]) (n0 :: more))
+                     else [[((n0, start, bond, Some 0) : kitem)]] in
+        kloop rings db' pyr start size fuel maxy (mkK stack [] [] buffer_size true) []
+    end in
+  match db with
+  | _ :: _ => run db db_start 1 false
+  | [] =>
+      match find_start rings pyr true with
+      | Some st => run db st 1 true
+      | None => match find_start rings pyr false with
+                | Some st => run db st 1 true
+                | None => match rings with
+                          | [] => Err StopIteration
+                          | nl :: _ => run [fst nl] (fst nl) 2 true            (* fullerene?: double_bonded.add(start) *)
+                          end
+                end
+      end
   end.
